@@ -3,10 +3,19 @@
 import json
 props=[json.loads(l) for l in open('/verif/properties.jsonl')]
 ENV="GOFLAGS=-mod=mod GOPROXY=off GOSUMDB=off GOTOOLCHAIN=local"
+COMMON_NOTE="Trusted: the SSA symbolic interpreter (every counterexample is replayed against the natively compiled code before it is reported; a non-reproducing one is INCONCLUSIVE, never a violation), z3 5.1.0, the stubs listed in evidence.assumptions. Holds only within evidence.coverage.bounds."
+def C(level,text,ref,tech="symbolic execution of go/ssa + SMT (QF_BV), bounded by shape vectors"):
+    return {"level":level,"text":text,"note":COMMON_NOTE,"technique":tech,"ref":ref}
 claimed={
- "C05":{"level":"other","text":"Bounded symbolic verification: the real Pack/Unpack code of the raw protocol (with utils.Args, status query coding, xfer pipe, message) is executed symbolically from go/ssa; every round-trip assertion is an SMT query over all values of the symbolic field bytes for each listed shape (lengths concrete). unsat on every query = holds for every input within the shape bounds; sat = concrete counterexample replayed natively before being reported.",
-        "note":"Trusted: the SSA interpreter (validated by native replay of every counterexample), z3 5.1.0, stubs listed in evidence.assumptions; bounds: field lengths listed in evidence.coverage.bounds; longer fields, other protocols' library framing (thrift, net/http, protobuf varints) are outside the claim.",
-        "technique":"symbolic execution of go/ssa + SMT (QF_BV), bounded by shape vectors","ref":"DESIGN.md §6 C05"},
+ "C01":C("other","Bounded symbolic verification of the non-interference mechanisms on the real code: reply correlation by sequence number (two pending calls, symbolic reply), no aliasing between a delivered body and pooled receive buffers of later frames, handler input/reply construction for one frame, recycled messages. Sequential schedules only: concurrent writers / sequence allocation under contention are not yet covered.","DESIGN.md §6 C01"),
+ "C02":C("other","Bounded symbolic verification: real AsyncCall/read loop/bindReply/handleReply/readDisconnected/done/cancel with two pending calls, one symbolic or truncated reply frame, then connection loss, and the Close-then-loss script; each completion obligation (Done fired once, one channel delivery, no goroutine left blocked) is an SMT query over all values of the symbolic frame fields.","DESIGN.md §6 C02"),
+ "C03":C("other","Bounded symbolic verification: one received frame (symbolic type/seq/body, symbolic plugin and handler statuses) through the real read loop, binding, routing, plugin stages, handler dispatch, writeReply and session.write, for enumerated handler outcomes, vetoing stages, route kinds and transport failures; at-most-once handling and exactly-once reply are SMT-checked assertions.","DESIGN.md §6 C03"),
+ "C04":C("other","Bounded symbolic verification of the three links of the status chain on real code (server-side reply status, raw wire round trip, client-side callCmd status incl. undecodable reply bodies) with symbolic status codes.","DESIGN.md §6 C04"),
+ "C05":C("other","Bounded symbolic verification: the real raw-protocol Pack/Unpack (with utils.Args, status query coding, xfer pipe, message) executed symbolically; round trip, one-write-per-frame, frame sync under solver-chosen short reads and size independence are SMT queries over all values of the symbolic field bytes per shape. Other wire protocols are not yet covered.","DESIGN.md §6 C05"),
+ "C06":C("other","Bounded symbolic verification: the real raw Unpack on a fully symbolic byte stream of each listed length; every buffer allocation size is a solver term checked against the configured limit; termination by instruction budget (an exceeded budget is INCONCLUSIVE).","DESIGN.md §6 C06"),
+ "C08":C("other","Scripted-interleaving symbolic execution of the real Close/closeLocked/wait groups/read loop/handleCall/write: handler entered and blocked, local Close in progress, reader EOF meanwhile (3 variants); reply-before-socket-close and Close-returns-after-handler are checked on the scripted connection. Not an exploration of all interleavings.","DESIGN.md §6 C08","symbolic execution of go/ssa with harness-scripted thread interleavings + SMT"),
+ "C12":C("other","Bounded symbolic verification of the real xfer.XferPipe and of pipe transport in the raw protocol and in replies (handleCall): solver-chosen filter sequences over three harness filters, symbolic payloads; unregistered ids and the 255/256 boundary.","DESIGN.md §6 C12"),
+ "C20":C("other","Differential bounded symbolic verification: an object dirtied with symbolic field values, released and re-acquired from the pool is compared field by field and by packed bytes with a fresh one, before and after a solver-chosen next use (message, Args, XferPipe, ByteBuffer).","DESIGN.md §6 C20"),
 }
 na_reason={}
 checks=[]
